@@ -332,6 +332,41 @@ example :
        { user := "U", bot := "b", vin := fun _ _ => .accept, vout := fun _ _ => .accept, dialogFault := false }]).map (fun o => (o.inCalls, o.userMsg))
     = [([(0, "U"), (1, "W")], some "W"), ([(0, "V"), (1, "V")], none), ([(0, "U"), (1, "U")], some "U")] := by decide
 
+/-- `every_call_gated_v1` (generation options per call): in a conversation whose calls carry their OWN options
+    (`convV1P`: a call may switch the input and / or output rails off for itself, a call without options enables all
+    rails), every call whose options enable the input rails runs exactly `gate` of all configured input rails on
+    ITS message — whatever options earlier calls had — and a call that switched them off runs none.
+    (`$skip_output_rails` is unset at every boundary.) -/
+theorem every_call_gated_v1 (cfg : Cfg) (hi : WF cfg .input) :
+    ∀ (cs : List (CallOpts × Turn)) (h : HistV1), h.skip = false →
+      ∀ p ∈ List.zip cs (convV1P cfg h cs),
+        railCalls .input p.2.1 = gate p.1.2.vin (if p.1.1.input then cfg.inRails else []) p.1.2.user ∧ p.2.2.2.skip = false
+  | [], _, _ => by simp [convV1P]
+  | (o, t) :: cs, h, hs => by
+    intro p hp
+    simp only [convV1P, List.zip_cons_cons, List.mem_cons] at hp
+    have hwf : WF (callCfg cfg o) .input := fun he r => hi he r
+    rcases hp with rfl | hp
+    · exact ⟨input_order_v1 (callCfg cfg o) h t hwf, turnV1_skip (callCfg cfg o) h t hs⟩
+    · exact every_call_gated_v1 cfg hi cs _ (turnV1_skip (callCfg cfg o) h t hs) p hp
+
+/-- non-vacuity: call 1 switches the input rails off, call 2 passes no options and is rejected by rail 0. -/
+example :
+    (convV1P { inRails := [0], outRails := [], dialog := false, exc := false, stops := fun _ _ => true, flagReset := true } initV1
+      [({ input := false }, { user := "u1", bot := "b1", intent := .free, actFault := false, retrFault := false, vin := fun _ _ => .reject, vout := fun _ _ => .accept }),
+       ({}, { user := "u2", bot := "b2", intent := .free, actFault := false, retrFault := false, vin := fun _ _ => .reject, vout := fun _ _ => .accept })]).map
+      (fun r => (railCalls .input r.1, r.2.1.texts))
+    = [([], ["b1"]), ([(0, "u2")], [refusal])] := by decide
+
+/-- the same at event level, from every event list: the rails of each call are those ITS options enable. -/
+theorem every_call_sees_current_text (inRails outRails : List Rail) :
+    ∀ (es : List Ev) (cs : List (CallOpts × TurnE)),
+      convEP false inRails outRails es cs =
+        cs.map fun c => specTurn (ids (if c.1.input then inRails else [])) (ids (if c.1.output then outRails else [])) c.2
+  | _, [] => rfl
+  | es, (o, t) :: cs => by
+    simp only [convEP, List.map_cons, turnE_spec, every_call_sees_current_text inRails outRails _ cs]
+
 end TwoContexts
 
 end NemoVerif.C01
